@@ -3,7 +3,7 @@
 from hypothesis import strategies as st
 
 from tv.core import Result
-from tv.cyc import Harness, step
+from tv.cyc import Harness, draw_second, second_fold, second_request, step
 from tv.queues import capped_history, check_accept
 
 ID = "C15"
@@ -72,6 +72,7 @@ def strategy(draw, tier="quick"):
         "write_max_count": wmc,
         "bits": bits,
         "history": hist,
+        **dict(zip(("second", "second_mask"), draw_second(draw, ["read", "write"]))),
     }
 
 
@@ -95,7 +96,10 @@ def run_case(case) -> Result:
         res.labels.append("ww_default")
     if rows == 1:
         res.labels.append("one_row")
-    h = Harness(lambda: WideFifo(bits, depth, rw, ww_opt, write_max_count=wmc))
+    second = case.get("second")
+    h = Harness(lambda: WideFifo(bits, depth, rw, ww_opt, write_max_count=wmc), second_callers=(second,) if second else ())
+    if second:
+        res.labels.append("two_callers_of_" + second)
     names = ["read", "peek", "write", "clear"]
     flags = dict(
         w_cross=False,
@@ -113,7 +117,7 @@ def run_case(case) -> Result:
     )
 
     async def tb(ctx):
-        ios = h.ios(names)
+        ios = h.ios(names + ([second + "_b"] if second else []))
         q = []
         wpos = rpos = 0  # element positions since the last clear (only used to classify cases)
         for cyc, rec in enumerate(case["history"]):
@@ -131,8 +135,12 @@ def run_case(case) -> Result:
                         reqs[n]["max_count"] = cnt + a[1] % (ww - cnt + 1)
                 else:
                     reqs[n] = {}
+            second_request(case, reqs, cyc)
             results, _ = await step(ctx, ios, reqs)
             res.stats["cycles"] = res.stats.get("cycles", 0) + 1
+            msg = second_fold(case, reqs, results)
+            if msg:
+                return res.fail(f"cycle {cyc}: {msg}")
             level = len(q)
             space = depth - level
             info = f"(level {level}/{depth}, rw={rw} ww={ww} wmc={wmc})"
